@@ -32,5 +32,8 @@
             // an emptied (cancelled or already taken) slot stays empty and nothing is called
             *old(self) is None ==> *final(self) is None,
             *final(self) is Some <==> *old(self) is Some,
+            // C13 (must-call side): a slot that holds a callback runs it -- an idle that was neither cancelled nor run yet is
+            // never skipped
+            *old(self) matches Some(f) ==> exists|d0: &mut Data| #[trigger] call_ensures(f, (d0,), ()),
 //@ enditem
 //@ close
